@@ -32,6 +32,64 @@ def run(ctx):
             ok = sites[root] <= row[0]
             ctx.ob(f"rounding|{short}", ok, f"{root} rounds {sorted(sites[root])}; allowed {sorted(row[0])} ({row[1]})", F.fns[root].loc())
             ctx.sample({"fn": root, "modes": sorted(sites[root]), "allowed": sorted(row[0])})
+    ctx.rule("T2: inside `contribute` a value is rounded UP only where no pool units are in circulation (first contribution: nobody to dilute): "
+             "every construction of RoundingMode::ToPositiveInfinity — followed outwards through the closures it sits in — is dominated by the "
+             "`pool unit total supply is zero / not > 0` edge of the supply test; pool units minted against existing holders are never rounded up")
+    def closure_sites(body):
+        out = {}
+        for i in range(body.n):
+            for st in body.stmts(i):
+                if st["k"] == "=" and st["rv"]["k"] == "agg" and st["rv"].get("ak") == "closure" and st["rv"].get("def"):
+                    out[st["rv"]["def"]] = i
+        return out
+
+    def supply_guard(body):
+        e, bl = [], []
+        for bb, tru, fal, si in body.bool_guards(lambda a: a.kind == "call" and re.search(r"::(gt|eq|ne|is_zero)$", a.what)):
+            for a in si["atoms"]:
+                if a.kind != "call" or not re.search(r"::(gt|eq|ne|is_zero)$", a.what):
+                    continue
+                args = a.extra["args"][:2]
+                src = [{x.rsplit("::", 1)[-1] for x in origin_names(body, arg)} for arg in args]
+                if not any("total_supply" in s_ for s_ in src):
+                    continue
+                op = a.what.rsplit("::", 1)[1]
+                if op == "gt" and "total_supply" in src[0]:
+                    e.append((bb, fal)); bl.append(bb)          # supply > 0 is false
+                elif op in ("eq", "is_zero"):
+                    e.append((bb, tru)); bl.append(bb)          # supply == 0
+                elif op == "ne":
+                    e.append((bb, fal)); bl.append(bb)
+        return e, bl
+    n_up = 0
+    for root in sorted(r_ for r_ in sites if re.search(r"PoolBlueprint::contribute$", r_) and "ToPositiveInfinity" in sites[r_]):
+        bodies = {x.name: x for x in ctx.bodies_of(root)}
+        parent_of = {}
+        for nm, x in bodies.items():
+            for cdef, blk in closure_sites(x).items():
+                parent_of[cdef] = (nm, blk)
+        for nm, x in sorted(bodies.items()):
+            ups = [i for i in range(x.n) for st in x.stmts(i)
+                   if st["k"] == "=" and st["rv"]["k"] == "agg" and st["rv"].get("var") == "ToPositiveInfinity" and (st["rv"].get("adt") or "").endswith("RoundingMode")]
+            for blk in ups:
+                n_up += 1
+                cur, cur_blk, ok, where = nm, blk, False, None
+                for _ in range(6):
+                    cb = bodies[cur]
+                    e, bl = supply_guard(cb)
+                    if bl:
+                        ok = cb.unreachable_without([cur_blk], e)[0]
+                        where = (cur, bl)
+                        break
+                    if cur not in parent_of:
+                        break
+                    cur, cur_blk = parent_of[cur]
+                short = ".".join(root.split("::")[-4:-1])
+                ctx.ob(f"round-up-only-without-circulating-units|{short}|{nm[len(root):] or 'root'}", ok,
+                       (f"round-up site reached only where the pool-unit supply test says `none in circulation` (test at bb{where[1]} of {where[0][len(root):] or 'root'})" if ok else
+                        "a value is rounded UP on a path where pool units may be in circulation (or no supply test encloses it): the contributor can be minted more than the pro-rata share"),
+                       x.loc(blk))
+    ctx.floor("round-up-sites-in-contribute", n_up, 4)
     ctx.rule("T9: every WithdrawStrategy::Rounded(..) built inside a pool blueprint carries a round-down mode")
     n = 0
     for name, f in F.fns.items():
